@@ -384,8 +384,13 @@ def check_emission(P, R):
                             guarded = True
             okl = bool(wraps) and bool(raw) and guarded
         elif isinstance(inner_l.iter, ast.IfExp):
-            is_l, neg_ = is_list_test(inner_l.iter.test, src(inner_l.iter.orelse if neg_ else inner_l.iter.body))
-            okl = is_l
+            # for v in (vals if isinstance(vals, list) else [vals])
+            it_ = inner_l.iter
+            okl = False
+            for listy, scalar, want_neg in ((it_.body, it_.orelse, False), (it_.orelse, it_.body, True)):
+                is_l, neg_ = is_list_test(it_.test, src(listy))
+                if is_l and neg_ == want_neg and isinstance(scalar, ast.List) and len(scalar.elts) == 1 and src(scalar.elts[0]) == src(listy):
+                    okl = True
         emitted.append((ap, okt, okl))
     if not emitted:
         R.undecided('C14.d', f, f.node, 'header list construction', 'neither a two-level list comprehension nor nested loops appending (name, value) pairs')
